@@ -256,7 +256,8 @@ def validateProposal (s : St) (exec : Bool) (height : Int) (tx : TxIn) : Step St
     if (s.props.get exec (ledgerKey tx.hash)).isSome then throw (.err "dupkey")
     if start ≤ height then throw (.err "payloadparams")
     if period > s.active.maxVotingPeriodBlocks ∨ period < s.active.minVotingPeriodBlocks then throw (.err "payloadparams")
-    if optType = PROPOSAL_GOVPARAMS ∧ opts.any (fun o => o.parsedV.isNone) then throw (.err "payloadparams")
+    -- every option must unmarshal as submitted AND in the form applyProposals reads it (repair: hotfixOption)
+    if optType = PROPOSAL_GOVPARAMS ∧ opts.any (fun o => o.parsedV.isNone || o.parsedA.isNone) then throw (.err "payloadparams")
     let endH := start + period
     let minApplying := endH + s.active.lazyApplyingBlocks
     if start > endH then throw (.err "payloadparams")
